@@ -92,11 +92,13 @@ func judgeGenerations(sc *SrvScenario, h *SrvHistory, res *core.Result, staleKin
 		return out
 	}
 	bc := backendClass(sc.Backend)
-	// a reload whose target is valid and that was not slowed down beyond the timeout must succeed
-	// (this is what makes "a later partial reload follows the database last switched to" visible
-	// when the server forgot or mis-recorded the path)
+	// a partial reload, or a switch to a fresh path, whose target is valid and that was not slowed
+	// down beyond the timeout must succeed (this is what makes "a later partial reload follows the
+	// database last switched to" visible when the server forgot or mis-recorded the path). A full
+	// reload naming a path used before may legitimately be refused; if it reports success, the
+	// register oracle holds it to its word.
 	for _, o := range h.Ops {
-		if o.Op.Kind == "reload" && o.Done && !o.OK && o.Op.Fault == "" && !errors.Is(o.Err, db.ErrReloadTimeout) && o.Op.DelayMs <= sc.TimeoutMs {
+		if o.Op.Kind == "reload" && o.Done && !o.OK && o.Op.Fault == "" && o.Op.SamePath == 0 && !errors.Is(o.Err, db.ErrReloadTimeout) && o.Op.DelayMs <= sc.TimeoutMs {
 			kind := "partial"
 			if o.Op.Full {
 				kind = "full"
